@@ -83,7 +83,7 @@ def sameGrids (x : D (Grid × List α)) (y : D (Grid × List β)) : Bool :=
 /-- Apply `f` to every value; grid, labels and order are kept. -/
 def mapData (f : α → β) : Data α → Data β
   | .dense g rows => .dense g (rows.map (List.map f))
-  | .irreg obs => .irreg (obs.map fun p => (p.1, (p.2.1, p.2.2.map f)))
+  | .irreg obs => .irreg (mapVals (fun e => (e.1, e.2.map f)) obs)
 
 /-- `func(values1, values2)` on two dense arrays of the same shape. -/
 def zipRows (f : α → β → γ) (r : List (List α)) (r' : List (List β)) : List (List γ) :=
@@ -230,6 +230,29 @@ def eq : Data Rat → Data Rat → Bool
   | .dense g r, .dense g' r' => decide (g = g') && closeRows r r'
   | .irreg x, .irreg y => sameGrids x y && closeObs x y
   | _, _ => false
+
+/-! #### What the statement asks of `==` (the specification `eq` is proved equivalent to) -/
+
+/-- "`a` is close to `b`". -/
+def Close (a b : Rat) : Prop := absQ (a - b) ≤ atol + rtol * absQ b
+
+/-- Same shape and every value close. -/
+def CloseList (v w : List Rat) : Prop :=
+  v.length = w.length ∧ ∀ (i : Nat) (h : i < v.length) (h' : i < w.length), Close v[i] w[i]
+
+def CloseRows (r s : List (List Rat)) : Prop :=
+  r.length = s.length ∧ ∀ (i : Nat) (h : i < r.length) (h' : i < s.length), CloseList r[i] s[i]
+
+/-- "Sampling points coincide and values are close": same class; dense: the same grid, the same
+number of observations, rows of the same length with close entries; irregular: the same number
+of labels, and every label of `a` is a label of `b` with the same grid and close values of the
+same shape. -/
+def eqSpec : Data Rat → Data Rat → Prop
+  | .dense g r, .dense g' r' => g = g' ∧ CloseRows r r'
+  | .irreg x, .irreg y =>
+    x.length = y.length ∧
+      ∀ p ∈ x, ∃ q, get? y p.1 = some q ∧ q.1 = p.2.1 ∧ CloseList p.2.2 q.2
+  | _, _ => False
 
 /-- `a == b` in the pristine tree: `(argvals == argvals) & np.allclose(values, values)`.
 Dense: arrays of different shapes raise from broadcasting (`ValueError`; shapes that happen to
